@@ -15,6 +15,8 @@ from typing import Any, Callable
 OperationalError = sqlite3.OperationalError
 Error = sqlite3.Error
 TICK = 1e-7
+_BUSY = __import__("re").compile(r"PRAGMA\s+busy_timeout\s*=\s*(\d+)", __import__("re").I)
+_WRITE = __import__("re").compile(r"\s*(INSERT|UPDATE|DELETE|REPLACE)\b", __import__("re").I)
 
 
 class Cursor:
@@ -46,6 +48,9 @@ class Connection:
         self.path = str(path)
         self._db: sqlite3.Connection | None = None
         self._last = 0.0
+        self._q: Any = __import__("collections").deque()
+        self._working = False
+        self.busy_timeout = 0.0  # seconds; sqlite's default is "fail at once"
         self.index = len(sim.connections)
         sim.connections.append(self)
 
@@ -59,7 +64,7 @@ class Connection:
         await self._submit("open", op, need_open=False)
         return self
 
-    def _submit(self, name: str, fn: Callable[[], Any], need_open: bool = True) -> "asyncio.Future[Any]":
+    def _submit(self, name: str, fn: Callable[[], Any], need_open: bool = True, write_sql: str | None = None) -> "asyncio.Future[Any]":
         loop = asyncio.get_running_loop()
         fut: asyncio.Future[Any] = loop.create_future()
         lat = self.sim.latency(self, name)
@@ -86,8 +91,56 @@ class Connection:
             else:
                 self.sim.orphaned += 1
 
-        loop.call_at(t, run)
+        def fail_locked() -> None:
+            self.sim.executed += 1
+            self.sim.lock_errors += 1
+            e = OperationalError("database is locked")
+            if self.sim.on_op is not None:
+                self.sim.on_op(self, name, repr(e))
+            if not fut.done():
+                fut.set_exception(e)
+
+        # strictly FIFO single worker: the head of the queue runs at its due time; a write statement that finds the database
+        # locked by ANOTHER process (sim.lock_windows / sim.lock_triggers) waits like sqlite's busy handler - up to this
+        # connection's `PRAGMA busy_timeout` - and fails with "database is locked" if the lock outlasts it
+        self._q.append([t, run, fail_locked, write_sql, False])
+        if not self._working:
+            self._working = True
+            loop.call_at(t, self._work)
         return fut
+
+    def _work(self) -> None:
+        loop = asyncio.get_running_loop()
+        now = loop.time()
+        while self._q:
+            t, run, fail_locked, write_sql, waited = self._q[0]
+            if t > now + 1e-12:
+                loop.call_at(t, self._work)
+                return
+            if write_sql is not None and not waited:
+                end = self.sim.lock_end(now, write_sql)
+                if end is not None:
+                    self._q[0][4] = True
+                    if end - now <= self.busy_timeout + 1e-12:
+                        self.sim.lock_waits += 1
+                        self._q[0][0] = end + TICK
+                    else:
+                        self._q[0][0] = now + self.busy_timeout
+                        self._q[0][1] = fail_locked
+                    self._shift_after(self._q[0][0])
+                    loop.call_at(self._q[0][0], self._work)
+                    return
+            self._q.popleft()
+            run()
+        self._working = False
+
+    def _shift_after(self, t0: float) -> None:
+        # nothing overtakes the statement that is waiting for the lock
+        t = t0
+        for e in list(self._q)[1:]:
+            t = max(e[0], t + TICK)
+            e[0] = t
+        self._last = max(self._last, t)
 
     async def execute(self, sql: str, parameters: Any = None) -> Cursor:
         params = tuple(parameters) if parameters is not None else ()
@@ -98,15 +151,21 @@ class Connection:
                 err = self.sim.fault(self, sql)
                 if err is not None:
                     raise err
+            m = _BUSY.search(sql)
+            if m:
+                self.busy_timeout = int(m.group(1)) / 1000.0
             return Cursor(self, self._db.execute(sql, params))
 
-        return await self._submit("execute", op)
+        return await self._submit("execute", op, write_sql=sql if _WRITE.match(sql) else None)
 
     async def executescript(self, sql: str) -> Cursor:
         def op() -> Cursor:
             assert self._db is not None
             return Cursor(self, self._db.executescript(sql))
 
+        m = _BUSY.search(sql)
+        if m:
+            self.busy_timeout = int(m.group(1)) / 1000.0
         return await self._submit("executescript", op)
 
     async def commit(self) -> None:
@@ -162,6 +221,20 @@ class SimSqlite:
         self.submitted = 0
         self.executed = 0
         self.orphaned = 0
+        # another process holding the write lock: absolute windows [(from, to)] in loop time, and triggers
+        # {"prefix": sql prefix, "dur": seconds, "fired": False} that take the lock the moment such a statement is about to run
+        self.lock_windows: list[tuple[float, float]] = []
+        self.lock_triggers: list[dict[str, Any]] = []
+        self.lock_waits = 0
+        self.lock_errors = 0
+
+    def lock_end(self, now: float, sql: str) -> float | None:
+        for tr in self.lock_triggers:
+            if not tr.get("fired") and sql.lstrip().upper().startswith(tr["prefix"].upper()):
+                tr["fired"] = True
+                self.lock_windows.append((now, now + tr["dur"]))
+        ends = [b for a, b in self.lock_windows if a - 1e-12 <= now < b]
+        return max(ends) if ends else None
 
     def connect(self, path: Any, **kw: Any) -> Connection:
         return Connection(self, path)
